@@ -64,7 +64,7 @@ def w_ritz(ctx, rng, idx):
     B = None
     if gevp:
         with probe.oracle():
-            B = gen.hermitian_tt(rng, dims, 1, cplx, hpd=True, eps=1.0)
+            B = gen.hermitian_tt(rng, dims, 1, cplx if rng.random() < 0.6 else (not cplx), hpd=True, eps=1.0)  # (dtype of B independent of A's)
     nev = int(rng.integers(1, 4))
     ranks = gen.feasible_ranks(dims, [1] * d, [1] + [int(rng.integers(1, 4)) for _ in range(d - 1)] + [1])
     micro = min(ranks[i] * dims[i] * ranks[i + 1] for i in range(d))
@@ -80,7 +80,7 @@ def w_ritz(ctx, rng, idx):
         if micro < nev + 2 or np.min(np.abs(w - sigma)) < 1e-3 * (abs(w[-1] - w[0]) + 1e-12) or (cplx and False):
             solver = 'eig'
     with probe.oracle():
-        g = gen.rand_tt(rng, dims, [1] * d, ranks, cplx)
+        g = gen.rand_tt(rng, dims, [1] * d, ranks, cplx if rng.random() < 0.6 else (not cplx))
     kw = dict(number_ev=nev, solver=solver, sigma=sigma, conv_eps=[0.0, 0.0, 1e-10, 1e-3][int(rng.integers(0, 4))])
     if rng.random() < 0.3:
         kw['real'] = False
@@ -141,21 +141,26 @@ def w_fixed_point(ctx, rng, idx):
         ctx.sample({'workload': 'fixed_point', 'dims': dims, 'complex': cplx, 'solver': solver, 'lambda': lam, 'overlap': float(ov)})
 
 
-def w_maximal(ctx, rng, idx):
-    dims = dims_for(rng, dmin=1, cap=48)
+def w_maximal(ctx, rng, idx, dims=None):
+    dims = dims_for(rng, dmin=1, cap=48) if dims is None else dims
     d = len(dims)
     cplx = bool(rng.integers(0, 2))
-    A = hermitian_op(rng, dims, cplx)
+    if int(np.prod(dims)) > 256:  # (large state spaces: a dense Hermitian matrix with a spectrum on both sides of 0, as TT operator)
+        n = int(np.prod(dims))
+        M = herm_matrix(rng, n, cplx) / np.sqrt(n) + float(rng.uniform(-1.5, 1.5)) * np.eye(n)
+        A = op_from_matrix(M, dims)
+    else:
+        A = hermitian_op(rng, dims, cplx)
     gevp = rng.random() < 0.3
     B = None
     if gevp:
         with probe.oracle():
-            B = gen.hermitian_tt(rng, dims, 1, cplx, hpd=True, eps=1.0)
+            B = gen.hermitian_tt(rng, dims, 1, cplx if rng.random() < 0.6 else (not cplx), hpd=True, eps=1.0)  # (dtype of B independent of A's)
     with probe.oracle():
         Am = mat(dense(A))
         Bm = mat(dense(B)) if B is not None else None
         w, V = sla.eigh(Am, Bm)
-        g = gen.rand_tt(rng, dims, [1] * d, gen.max_ranks(dims, [1] * d), cplx)
+        g = gen.rand_tt(rng, dims, [1] * d, gen.max_ranks(dims, [1] * d), cplx if rng.random() < 0.6 else (not cplx))  # (guess dtype independent)
     first = int(rng.integers(0, 3))
     # the same operator / guess objects are solved for two different targets in a row (second call: anything kept from the first shows)
     for which in ([first, (first + 1 + int(rng.integers(0, 2))) % 3] if rng.random() < 0.5 else [first]):
@@ -245,12 +250,12 @@ def w_power(ctx, rng, idx):
     B = None
     if gevp:
         with probe.oracle():
-            B = gen.hermitian_tt(rng, dims, 1, cplx, hpd=True, eps=1.0)
+            B = gen.hermitian_tt(rng, dims, 1, cplx if rng.random() < 0.6 else (not cplx), hpd=True, eps=1.0)  # (dtype of B independent of A's)
     with probe.oracle():
         Am = mat(dense(A))
         Bm = mat(dense(B)) if B is not None else None
         w, V = sla.eigh(Am, Bm)
-        g = gen.rand_tt(rng, dims, [1] * d, gen.max_ranks(dims, [1] * d), cplx)
+        g = gen.rand_tt(rng, dims, [1] * d, gen.max_ranks(dims, [1] * d), cplx if rng.random() < 0.6 else (not cplx))  # (guess dtype independent)
     n = len(w)
     k = int(rng.integers(0, n))
     gaps = []
@@ -281,7 +286,15 @@ def w_power(ctx, rng, idx):
         ctx.sample({'workload': 'power', 'dims': dims, 'complex': cplx, 'gevp': gevp, 'sigma': sigma, 'nearest_eigenvalue': float(w[k]), 'reported': lam_r})
 
 
+def w_large_micro(ctx, rng, idx):
+    """micro problems with more than 512 unknowns (state spaces of 576-648 states at maximal ranks): the sizes at which an
+    implementation might switch from a dense to an iterative micro-solver; the exactness clause applies unchanged"""
+    dims = [[24, 24], [9, 8, 9], [18, 32]][idx % 3]
+    w_maximal(ctx, rng, idx, dims=dims)
+
+
 WORKLOADS = [
+    Workload('large_micro', w_large_micro, 2, 12),
     Workload('ritz', w_ritz, 160, 4000),
     Workload('fixed_point', w_fixed_point, 120, 3000),
     Workload('maximal', w_maximal, 120, 3000),
